@@ -26,7 +26,7 @@ class FunctionSolver:
         result = fn(data)
         if isinstance(result, Type):
             if in_units:
-                result.convert(in_units)
+                result.convert(in_units, self.env)    # the units defined in the text are known there
             return result.value
         else:
             return result
